@@ -42,8 +42,8 @@ _RULE = (
     "thorough: + n=3 full templates (185 193), n=3 reduced rb=3 (103 173), n=4 reduced (194 481). "
     "(opts) main document = one include at each of 5 positions x an 87-entry option catalogue (target b / c / a itself / missing / text files / no href; parse absent, xml, text, bogus; "
     "encoding absent, ISO-8859-1, UTF-16; xpointer; xml:base on the xi:include; fallback none, empty, text, elements+text, nested include (4 targets, with/without inner fallback), "
-    "two fallbacks, xi:include child, fallback outside an include) x 8 forms of b.xml (plain; absolute / relative xml:base on the root; includes c; includes a (loop); "
-    "document element is an include; include under a relative xml:base; includes itself) = 3 480; two includes per document: quick catalogue x every 4th catalogue entry x {first+last child} x plain b (1 914), "
+    "two fallbacks, xi:include child, fallback outside an include) x 9 forms of b.xml (plain; absolute / relative xml:base on the root; includes c; includes a (loop); "
+    "document element is an include; include under a relative xml:base; includes itself; includes c twice) = 3 915; two includes per document: quick catalogue x every 4th catalogue entry x {first+last child} x plain b (1 914), "
     "thorough catalogue^2 x 2 templates x 3 forms of b (45 414). (leak) catalogue x 2 contexts (middle child + plain b; document element + b including a) re-run with LeakSanitizer, leak check after every case. "
     "(defects) one minimal reproducer per entry of KNOWN_DEFECTS, evaluated strictly. "
     "Every case is parsed by XercesDOMParser(setDoNamespaces, setDoXInclude, parse(systemId)) and DOMLSParser(namespaces, fgXercesDoXInclude, parseURI) under ASan+UBSan "
